@@ -620,8 +620,9 @@ def run(ctx):
                     cache[ck] = oracle(c, be, parse_col(iv, c.n))
                 for (i, kind, e) in cache[ck]:
                     g = "gap" if gap else "nogap"
-                    if e > max_err[g]:
-                        max_err[g] = e
+                    if kind is None or g == "gap":
+                        if e > max_err[g]:
+                            max_err[g] = e
                     if kind is not None:
                         ctx.oracle_failures += 1
                         fails.append((fail_key(c, kind, gap, be), lines[li], iv, {"coefficient": i, "kind": kind, "error_in_units_of_last_limb": e}))
@@ -633,7 +634,7 @@ def run(ctx):
             ctx.cov["exhaustive_scope"] = ("b<=2, sizes<=2 complete; b<=3 sizes<=3 stratified 1/7" if quick
                                            else "b<=3, sizes<=3 complete; b<=4, sizes<=2 complete") + \
                 "; all digit values in [-2^b, 2^b], all offsets/shift amounts in [-(a_bits+2b), a_bits+2b]"
-            ctx.cov["max_error_units_outside_gap"] = max_err["nogap"]
+            ctx.cov["max_error_units_outside_gap_passing_checks"] = max_err["nogap"]
             ctx.cov["max_error_units_in_gap"] = max_err["gap"]
         run_codec(ctx, binp, drv, quick, broken, fails)
 
